@@ -9,9 +9,9 @@ from ..engine import fresh_int
 from ..symstr import TokStr, make_tokens, model_value
 from .c12 import make_api, judge, NAMES
 
-A11 = ["[C]", "[=C]", "[#C]", "[#N]", "[O]", "[Branch1]", "[Ring1]"]
+A11 = ["[C]", "[=C]", "[#C]", "[#N]", "[O]", "[Branch1]", "[Ring1]", "[NH2]", "[CH3]"]
 SMILES = ["C#N", "c1ccccc1", "C(F)(F)(F)(F)F", "[NH4+]", "OC=O", "C1CC1"]
-WARM = ["[C][#C][#N]", "[N][=C][Branch1][C][O][#N]"]
+WARM = ["[C][#C][#N]", "[N][=C][Branch1][C][O][#N]", "[C][NH2][CH3]"]
 ENC_OPS = [("C#N", False), ("C(F)(F)(F)(F)F", True)]
 
 
